@@ -852,3 +852,117 @@ pub fn rename_expected(n: &[u8], target: &[u8], source: &[u8], suffix: bool, out
     }
     Renamed::To(off + target.len())
 }
+
+/// C14: are the labels of the pointer-free wire name `w` exactly the
+/// dot-separated labels of `text` (a trailing dot closes the name; without it
+/// the labels of the wire name `zone` follow, or the root when no zone)?
+pub fn text_labels_match(text: &[u8], zone: Option<&[u8]>, w: &[u8]) -> bool {
+    let tl = text.len();
+    let mut wi = 0usize; // cursor in w
+    let mut ti = 0usize; // cursor in text
+    let absolute = tl > 0 && text[tl - 1] == b'.';
+    let body = if absolute { tl - 1 } else { tl };
+    // labels of the text
+    let mut g = 0;
+    while ti < body && g < 300 {
+        g += 1;
+        // label = text[ti..e] up to the next dot
+        let mut e = ti;
+        while e < body && text[e] != b'.' {
+            e += 1;
+        }
+        let l = e - ti;
+        if l == 0 {
+            return false; // empty label cannot be represented
+        }
+        if wi >= w.len() || w[wi] as usize != l || wi + 1 + l > w.len() {
+            return false;
+        }
+        let mut k = 0;
+        let mut same = true;
+        while k < l {
+            same &= w[wi + 1 + k] == text[ti + k];
+            k += 1;
+        }
+        if !same {
+            return false;
+        }
+        wi += 1 + l;
+        ti = e + 1;
+    }
+    // tail: root, or the zone
+    if absolute || body == 0 {
+        return wi + 1 == w.len() && w[wi] == 0;
+    }
+    match zone {
+        None => wi + 1 == w.len() && w[wi] == 0,
+        Some(z) => {
+            if w.len() != wi + z.len() {
+                return false;
+            }
+            let mut k = 0;
+            let mut same = true;
+            while k < z.len() {
+                same &= w[wi + k] == z[k];
+                k += 1;
+            }
+            same
+        }
+    }
+}
+
+/// letters, digits, hyphen, underscore
+#[inline]
+pub fn is_ldhu(c: u8) -> bool {
+    (c >= b'a' && c <= b'z') || (c >= b'A' && c <= b'Z') || (c >= b'0' && c <= b'9') || c == b'-' || c == b'_'
+}
+
+/// C14 acceptance clause: 1 = must be accepted (LDH_ labels of at most 62
+/// bytes, no empty label, wire length at most 253 including the zone);
+/// 2 = must be rejected (an empty interior label, a label over 63, a wire
+/// length over 255); 0 = the property leaves it open.
+pub fn text_class(text: &[u8], zone_len: usize) -> u8 {
+    let tl = text.len();
+    if tl == 0 {
+        return 0;
+    }
+    if tl == 1 && text[0] == b'.' {
+        return 0;
+    }
+    let absolute = text[tl - 1] == b'.';
+    let body = if absolute { tl - 1 } else { tl };
+    let mut all_ldhu = true;
+    let mut empty_label = false;
+    let mut max_label = 0usize;
+    let mut cur = 0usize;
+    let mut wire = 0usize;
+    let mut i = 0;
+    while i < body {
+        if text[i] == b'.' {
+            if cur == 0 {
+                empty_label = true;
+            }
+            wire += 1 + cur;
+            cur = 0;
+        } else {
+            all_ldhu &= is_ldhu(text[i]);
+            cur += 1;
+            if cur > max_label {
+                max_label = cur;
+            }
+        }
+        i += 1;
+    }
+    if cur == 0 {
+        empty_label = true; // "a.." or a leading dot
+    }
+    wire += 1 + cur;
+    wire += if absolute || zone_len == 0 { 1 } else { zone_len };
+    if empty_label || max_label > MAX_LABEL || wire > MAX_NAME {
+        return 2;
+    }
+    if all_ldhu && max_label <= 62 && wire <= 253 {
+        return 1;
+    }
+    0
+}
